@@ -129,7 +129,11 @@ package region
 //@   loop 3 invariant[C11] forall(k, 0 <= k && k < idx3, roeOK(m, rar.GetResultOrException()[k]))
 //@   loop 4 invariant[C11] len(seen) == len(m.calls)
 
+// positional consumption (C02): the cells of a result are decoded by the call its index names, into a response holding
+// that result, from the point of the shared cellblock where the previous result's cells ended
 //@ func region.(*multi).DeserializeCellBlocks
+//@   at call DeserializeCellBlocks#1 assert[C02] c == m.calls[i-1] && sameslice(arg1, b[nread:])
+//@   at call DeserializeCellBlocks#1 assert[C02] (typeis(response, "*pb.GetResponse") ==> cast(response, "*pb.GetResponse").Result == r) && (typeis(response, "*pb.MutateResponse") ==> cast(response, "*pb.MutateResponse").Result == r)
 //@   requires typeis(msg, "*pb.MultiResponse")
 //@   requires multiWF(m) && multiRespOK(m, cast(msg, "*pb.MultiResponse"))
 //@   modifies F.pb.Result.Cell, F.pb.GetResponse.Result, F.pb.MutateResponse.Result, F.pb.ScanResponse.Results, M.*pb.Result
@@ -187,6 +191,8 @@ package region
 //@   ensures[C18] len(c.sent) == old(len(c.sent)) || len(c.sent) == old(len(c.sent)) - 1
 // whoever takes a call out of the sent table completes it (C03): on every path of the reader the call removed is handed
 // to returnResult exactly once (ghost completed), unless its own context has already ended
+// the call completed is the one registered under the call id of the response header (C02)
+//@   at call returnResult#2 assert[C02] rpc == was(c.sent[callID])
 //@   at call returnResult#1 ghost completed[rpc] == ghostat("completed", rpc) + 1
 //@   at call returnResult#2 ghost completed[rpc] == ghostat("completed", rpc) + 1
 //@   ensures[C03] forall(k, old(haskey(c.sent, k)) && !haskey(c.sent, k) ==> ghostat("completed", old(c.sent[k])) == old(ghostat("completed", c.sent[k])) + 1 || ghostat("ctxdone", old(c.sent[k]).Context()) == 1)
@@ -196,7 +202,13 @@ package region
 //@   modifies object(m), contents(m.calls)
 //@   panics never[C11]
 
+// dispatch (C02): a whole-region exception goes to the calls bound to the region in that position of the request; a
+// per-action exception or result goes to the call the 1-based index names, and the response delivered carries exactly
+// the result that came under that index
 //@ func region.(*multi).returnResults
+//@   at call ResultChan#2 assert[C02] asiface(ghostat("callregion", c), "hrpc.RegionInfo") == m.regions[i]
+//@   at call ResultChan#3 assert[C02] c == m.calls[i-1]
+//@   at call ResultChan#4 assert[C02] c == m.calls[i-1] && (typeis(response, "*pb.GetResponse") ==> cast(response, "*pb.GetResponse").Result == roe.GetResult()) && (typeis(response, "*pb.MutateResponse") ==> cast(response, "*pb.MutateResponse").Result == roe.GetResult())
 //@   at call freeMulti#1 ghost owed[m] == 0
 //@   ensures[C03] ghostat("owed", m) == 0 && owedShrinks()
 //@   modifies X.owed, object(m), contents(m.calls), X.delivered, X.owed, F.pb.GetResponse.Result, F.pb.MutateResponse.Result
@@ -451,8 +463,25 @@ package region
 // (one result per action) satisfies checkResponse, and a call is never awaited without having been sent.
 //@ func region.(*multi).toProto
 //@   requires forall(k, 0 <= k && k < len(m.calls), m.calls[k] != nil)
+// (the action index is a uint32 on the wire: a multi holds fewer than 2^32 calls - it is flushed at queueSize)
+//@   requires len(m.calls) < 4294967295
 //@   at call append#1 ghost inreq[i] == ghostat("inreq", i) + 1
 //@   loop 1 invariant[C12] forall(k, 0 <= k && k < i, ghostat("inreq", k) == old(ghostat("inreq", k)) + ite(m.calls[k] != nil, 1, 0))
 //@   loop 1 invariant[C12] forall(k, i <= k && k < len(m.calls), ghostat("inreq", k) == old(ghostat("inreq", k)) && m.calls[k] != nil)
 //@   loop 1 invariant[C12] len(m.calls) == old(len(m.calls)) && actionsPerReg != nil && forall(r, haskey(actionsPerReg, r) ==> actionsPerReg[r] != nil)
 //@   ensures[C12] forall(k, 0 <= k && k < len(m.calls), ghostat("inreq", k) == old(ghostat("inreq", k)) + ite(m.calls[k] != nil, 1, 0))
+// the region actions of the request and m.regions are in the same order: position j of the request names m.regions[j]
+// (a whole-region exception in position j of the response is fanned out to the calls of m.regions[j])
+//@   loop 3 invariant[C02] 0 <= i
+//@   loop 3 invariant[C02] forall(j, 0 <= j && j < i, ra[j] != nil && allocated(ra[j]))
+//@   loop 3 invariant[C02] forall(j, 0 <= j && j < i, ra[j].Region != nil && allocated(ra[j].Region))
+//@   loop 3 invariant[C02] forall(j, 0 <= j && j < i, sameslice(ra[j].Region.Value, m.regions[j].Name()))
+// the action built for slot k carries the 1-based index k+1 (C02): ghost actof[k] = the action appended for slot k
+//@   at call append#1 ghost actof[i] == a
+//@   loop 1 invariant len(indices) == len(m.calls) && len(pbActions) == len(m.calls) && forall(k, i <= k && k < len(m.calls), !escaped(indices, k) && !escaped(pbActions, k))
+//@   loop 1 invariant[C02] forall(k, 0 <= k && k < i && m.calls[k] != nil, ghostat("actof", k) == elemaddr(pbActions, k))
+//@   loop 1 invariant[C02] forall(k, 0 <= k && k < i && m.calls[k] != nil, elemaddr(pbActions, k).Index == elemaddr(indices, k))
+//@   loop 1 invariant[C02] forall(k, 0 <= k && k < i && m.calls[k] != nil, *elemaddr(indices, k) == k + 1)
+//@   ensures[C02] forall(k, 0 <= k && k < len(m.calls) && m.calls[k] != nil, ghostat("actof", k) == elemaddr(pbActions, k))
+//@   ensures[C02] forall(k, 0 <= k && k < len(m.calls) && m.calls[k] != nil, elemaddr(pbActions, k).Index == elemaddr(indices, k))
+//@   ensures[C02] forall(k, 0 <= k && k < len(m.calls) && m.calls[k] != nil, *elemaddr(indices, k) == k + 1)
